@@ -2,6 +2,7 @@ package main
 
 import (
 	"fmt"
+	"go/types"
 	"os"
 	"testing"
 
@@ -16,40 +17,30 @@ func TestDebug(t *testing.T) {
 	if err != nil {
 		t.Fatal(err)
 	}
-	fn, err := p.Method("fhirpath/system", "Date", "Less")
-	if err != nil {
-		t.Fatal(err)
-	}
-	for _, li := range naturalLoops(fn) {
-		k, w := classifyLoop(li)
-		fmt.Println(li.header.Index, li.header.Comment, len(li.body), k, w)
-		for b := range li.body {
-			fmt.Println("  body", b.Index, b.Comment)
-			if ifi, ok := b.Instrs[len(b.Instrs)-1].(*ssa.If); ok {
-				if bo, ok := ifi.Cond.(*ssa.BinOp); ok {
-					ub, ok2 := smallUpperBound(bo.Y, 0)
-					if c, ok := bo.Y.(*ssa.Call); ok {
-						fmt.Printf("     callee %T %v\n", c.Common().Value, c.Common().Value)
-						for _, a := range c.Common().Args {
-							u, k := smallUpperBound(a, 1)
-							fmt.Printf("     arg %T %v -> %d %v\n", a, a, u, k)
-							if ct, ok := a.(*ssa.ChangeType); ok {
-								u, k = smallUpperBound(ct.X, 2)
-								fmt.Printf("       inner %T %v -> %d %v\n", ct.X, ct.X, u, k)
-								if lk, ok := ct.X.(*ssa.Lookup); ok {
-									fmt.Printf("       lk.X %T\n", lk.X)
-									if ld, ok := lk.X.(*ssa.UnOp); ok {
-										g := ld.X.(*ssa.Global)
-										m, ok := globalMapMax(g)
-										fmt.Println("        gmax", m, ok, g.Pkg.Func("init") != nil)
-									}
-								}
-							}
-						}
+	ie, _ := p.Method("fhirpath/internal/expr", "FieldExpression", "isEvaluable")
+	dt, _ := p.typesPkg(dtPkgPath)
+	hn := types.NewPointer(dt.Scope().Lookup("HumanName").Type())
+	an := newAnalyzer()
+	for _, b := range ie.Blocks {
+		for _, ins := range b.Instrs {
+			if ld, ok := ins.(*ssa.UnOp); ok {
+				if fa, ok := ld.X.(*ssa.FieldAddr); ok {
+					if fieldName(fa) == "FieldName" {
+						an.pin[ld] = cStr("abatement")
+					} else {
+						an.pin[ld] = cBool(false)
 					}
-					fmt.Println("   if", bo, "Y=", bo.Y, ub, ok2, isInduction(bo.X, li), isInduction(bo.Y, li))
 				}
 			}
 		}
+	}
+	an.callModel = stringLibModel
+	res := an.analyze(ie, []aval{nonnil("e"), {k: kNonNil, dyn: hn}})
+	for _, ri := range res.rets {
+		fmt.Println("ret", p.instrPos(ri.instr), ri.vals)
+	}
+	fmt.Println(res.execBlock, res.hazards)
+	for v, a := range res.env {
+		fmt.Println(v.Name(), v, "=>", a)
 	}
 }
